@@ -693,11 +693,12 @@ impl AsLogicalPlan for LogicalPlanNode {
                     projection = Some(column_indices);
                 }
 
-                LogicalPlanBuilder::scan_with_filters(
+                LogicalPlanBuilder::scan_with_filters_fetch(
                     table_name,
                     provider_as_source(Arc::new(provider)),
                     projection,
                     filters,
+                    scan.fetch.map(|f| f as usize),
                 )?
                 .build()
             }
@@ -727,11 +728,12 @@ impl AsLogicalPlan for LogicalPlanNode {
                     ctx,
                 )?;
 
-                LogicalPlanBuilder::scan_with_filters(
+                LogicalPlanBuilder::scan_with_filters_fetch(
                     table_name,
                     provider_as_source(provider),
                     projection,
                     filters,
+                    scan.fetch.map(|f| f as usize),
                 )?
                 .build()
             }
@@ -1140,10 +1142,12 @@ impl AsLogicalPlan for LogicalPlanNode {
                 let table_name =
                     from_table_reference(scan.table_name.as_ref(), "ViewScan")?;
 
-                LogicalPlanBuilder::scan(
+                LogicalPlanBuilder::scan_with_filters_fetch(
                     table_name,
                     provider_as_source(Arc::new(provider)),
                     projection,
+                    vec![],
+                    scan.fetch.map(|f| f as usize),
                 )?
                 .build()
             }
@@ -1251,13 +1255,19 @@ impl AsLogicalPlan for LogicalPlanNode {
                 .map(LogicalPlan::RecursiveQuery)
             }
             LogicalPlanType::CteWorkTableScan(cte_work_table_scan_node) => {
-                let CteWorkTableScanNode { name, schema } = cte_work_table_scan_node;
+                let CteWorkTableScanNode {
+                    name,
+                    schema,
+                    fetch,
+                } = cte_work_table_scan_node;
                 let schema = convert_required!(*schema)?;
                 let cte_work_table = CteWorkTable::new(name.as_str(), Arc::new(schema));
-                LogicalPlanBuilder::scan(
+                LogicalPlanBuilder::scan_with_filters_fetch(
                     name.as_str(),
                     provider_as_source(Arc::new(cte_work_table)),
                     None,
+                    vec![],
+                    fetch.map(|f| f as usize),
                 )?
                 .build()
             }
@@ -1282,11 +1292,12 @@ impl AsLogicalPlan for LogicalPlanNode {
 
                 let provider = Arc::new(EmptyTable::new(Arc::clone(&schema)));
 
-                LogicalPlanBuilder::scan_with_filters(
+                LogicalPlanBuilder::scan_with_filters_fetch(
                     table_name,
                     provider_as_source(provider),
                     projection,
                     filters,
+                    scan.fetch.map(|f| f as usize),
                 )?
                 .build()
             }
@@ -1337,10 +1348,12 @@ impl AsLogicalPlan for LogicalPlanNode {
                 source,
                 filters,
                 projection,
+                fetch,
                 ..
             }) => {
                 let provider = source_as_provider(source)?;
                 let schema = provider.schema();
+                let fetch = fetch.map(|f| f as u64);
 
                 let projection = match projection {
                     None => None,
@@ -1469,6 +1482,7 @@ impl AsLogicalPlan for LogicalPlanNode {
                                 projection,
                                 filters,
                                 file_sort_order: exprs_vec,
+                                fetch,
                             },
                         )),
                     })
@@ -1492,6 +1506,7 @@ impl AsLogicalPlan for LogicalPlanNode {
                                     .definition()
                                     .map(|s| s.to_string())
                                     .unwrap_or_default(),
+                                fetch,
                             },
                         ))),
                     })
@@ -1507,6 +1522,7 @@ impl AsLogicalPlan for LogicalPlanNode {
                             CteWorkTableScanNode {
                                 name,
                                 schema: Some(schema),
+                                fetch,
                             },
                         )),
                     })
@@ -1522,6 +1538,7 @@ impl AsLogicalPlan for LogicalPlanNode {
                                 schema: Some(schema),
                                 projection,
                                 filters,
+                                fetch,
                             },
                         )),
                     })
@@ -1539,6 +1556,7 @@ impl AsLogicalPlan for LogicalPlanNode {
                         schema: Some(schema),
                         filters,
                         custom_table_data: bytes,
+                        fetch,
                     });
                     let node = LogicalPlanNode {
                         logical_plan_type: Some(scan),
